@@ -333,7 +333,7 @@ def expected_sig(fn, v):
     """Independent transcription of the property text (not of the model) for the per-value signatures."""
     if fn == "tt":
         idx = v if v <= 21 else 22
-        bits = 1 | 2 | 4 | 8 | 16 | 32 | 512 | 1024 | 2048 | 4096 | 8192 | 16384 | 32768 | 65536
+        bits = 1 | 2 | 4 | 8 | 16 | 32 | 512 | 1024 | 2048 | 4096 | 8192 | 16384 | 32768 | 65536 | 131072 | 262144 | 524288
         return (idx << 48) ^ (bits << 32) ^ v ^ (v << 7)
     if fn == "mat":
         idx = v if 1 <= v <= 5 else 0
@@ -788,7 +788,7 @@ def partitions(content, rng, k):
 @register
 class C16(PropDef):
     id = "C16"
-    rule = ("BOXED: new_boxed::<DynSizedStructure<H>> for H in {TagHeader, HeaderTagHeader, DummyTestHeader} with content of "
+    rule = ("BOXED: new_boxed::<DynSizedStructure<H>> for H in {TagHeader, HeaderTagHeader, DummyTestHeader, BootInformationHeader, Multiboot2BasicHeader} with content of "
             "every total length 0..24 split into 0..4 slices (all cut points for short contents, random ones otherwise; empty "
             "slices included), header size field pre-set to 0 / garbage; a tracking global allocator records the (size, align) "
             "of the allocation and of every deallocation of the object. CLONE: clone_dyn on every dynamically sized tag kind of "
@@ -799,7 +799,9 @@ class C16(PropDef):
     def gen(self, tier, rng):
         import itertools
         cases = []
-        for kind, hdr in (("tag", u32(7) + u32(0)), ("tag", u32(0xFFFFFFFF) + u32(999)), ("dummy", u32(42) + u32(0)), ("ht", u16(1) + u16(1) + u32(0)), ("ht", u16(5) + u16(0) + u32(77))):
+        hbimg = lambda a: u32(0xE85250D6) + u32(a) + u32(24) + u32((-(0xE85250D6 + a + 24)) % (1 << 32))   # noqa: E731
+        for kind, hdr in (("tag", u32(7) + u32(0)), ("tag", u32(0xFFFFFFFF) + u32(999)), ("dummy", u32(42) + u32(0)), ("ht", u16(1) + u16(1) + u32(0)), ("ht", u16(5) + u16(0) + u32(77)),
+                          ("bi", u32(16) + u32(0)), ("hb", hbimg(0)), ("hb", hbimg(4))):
             for total in range(0, 25 if tier == "quick" else 65):
                 content = rbytes(rng, total)
                 cases.append("BOXED %s %s %s" % (kind, hx(hdr), hx(content) if total else "-"))
